@@ -638,6 +638,36 @@ def probe_element_bounds(ctx, sides):
     ctx.cov["correspondence"]["element-bounds-probe"] = {"pairs": len(lines) - 1, "runtime_accepts_expresss_refuses": n_ignored}
 
 
+def probe_specialization(ctx, sides):
+    """the simple types: which value types the runtime stores for which base type, against EXPRESS's assignment
+    compatibility (specializations included).  Where the runtime refuses what EXPRESS allows because of a specialization
+    (INTEGER for REAL, BOOLEAN for LOGICAL) the difference is the class `simple-specialization-refused` (one finding);
+    any other difference is reported under its own key."""
+    tags = ["0", "1", "2", "3", "4", "6", "7"]
+    bases = tags + ["5", "s5", "s3", "s24", "s65"]
+    lines = ["reset"] + [f"accepts {t} {b}" for b in bases for t in tags]
+    text = "\n".join(lines) + "\n"
+    out = {side: run_side(getattr(sides, side), text, sides.env if side == "impl" else None)[1] for side in ("impl", "model", "spec")}
+    n = 0
+    for i, l in enumerate(lines[1:], 1):
+        a, m, sp = canon(out["impl"][i]), out["model"][i], out["spec"][i]
+        ctx.count(1, key=l); ctx.hist("simple-type-acceptance", f"{a}/{sp}")
+        if a != m:
+            ctx.broken.append(("correspondence PyAgg model vs TypeChecker.check_type on simple types", f"`{l}`: runtime `{a}`, model `{m}`"))
+            return
+        t, b = l.split()[1:]
+        if a == "refused" and sp == "ok" and (t, b) in (("0", "2"), ("3", "4")):
+            n += 1
+            if n == 1:
+                ctx.violation("simple-specialization-refused", f"`{l}`: the runtime refuses a value of a specialization (INTEGER for REAL, "
+                              "BOOLEAN for LOGICAL) that EXPRESS lets stand for the declared base type (9.2.6, 13.3.2)",
+                              {"lines": ["reset", l], "how": "feed to harness/h_pyagg.py and to `m_c19 spec`"})
+        elif a != sp:
+            ctx.violation("simple-acceptance:" + l.replace(" ", ","), f"`{l}`: the runtime answered `{a}`, EXPRESS requires `{sp}`",
+                          {"lines": ["reset", l], "how": "feed to harness/h_pyagg.py and to `m_c19 spec`"})
+    ctx.cov["correspondence"]["simple-specialization-probe"] = {"pairs": len(lines) - 1, "specializations_refused": n}
+
+
 def fallback_generated():
     """When the extractor no longer matches the tree under test (a broken tie, reported by ctx.lean) the private Lean copy
     would keep whatever Generated file it had and the drivers might not build: give it the committed one (valid for /repo) so
@@ -683,6 +713,7 @@ def run(ctx):
     if total:
         report(ctx, sides, total)
     probe_element_bounds(ctx, sides)
+    probe_specialization(ctx, sides)
     rnd = random_history(ctx.rng, 12)
     ctx.sample({"lines": hist_lines(rnd)})
     ctx.sample({"lines": hist_lines(exhaustive(("LIST", 1, 2, 0, 1, 0, 0), 2)[37])})
@@ -699,9 +730,10 @@ def replay(ctx, path):
     r = d.get("replay", d)
     ctx.lean("StepModel.Props.C19", exes=["m_c19"], extractors=EXTRACTORS)
     sides = Sides(ctx)
-    if any(l.startswith("fits") for l in r["lines"]):
+    if any(l.startswith(("fits", "accepts")) for l in r["lines"]):
         ctx.distinct = Distinct()
         probe_element_bounds(ctx, sides)
+        probe_specialization(ctx, sides)
         return
     h = parse_lines(r["lines"])
     ctx.distinct = Distinct()
